@@ -34,6 +34,7 @@ pub fn run(cfg: &Config) -> i32 {
 		add(&mut total, pf::fam_large(cfg, flags, if thorough { 64 } else { 16 }, if thorough { 100_000 } else { 20_000 }));
 		add(&mut total, pf::fam_block_boundaries(cfg, flags));
 		add(&mut total, pf::fam_long_strings(cfg, flags, if cfg.san { 300 } else { 2300 }));
+		add(&mut total, pf::fam_long_lexemes(cfg, flags, if cfg.san { 200 } else { 1200 }));
 	}
 	let extra = json!({
 		"escape_tables_swept_completely": exhaustive_tables,
